@@ -204,6 +204,31 @@ class OneOf(Spec):
         return out
 
 
+class SymCollT(Spec):
+    """list / tuple / set of symbolic length n >= 0 with opaque elements"""
+
+    def __init__(self, pytype):
+        self.pytype = pytype
+        self.label = f"{pytype.__name__}[n]"
+
+    def make(self, I, name):
+        V, z3 = _v(), _z3()
+        n = z3.Int(name + '.len')
+        I.st.assume(n >= 0)
+        return V.SymColl(self.pytype, V.SeqPart(name, n))
+
+
+class SymListT(Spec):
+    """a python list whose existing contents are one segment of symbolic length (then concrete items)"""
+    label = 'list[n..]'
+
+    def make(self, I, name):
+        V, z3 = _v(), _z3()
+        n = z3.Int(name + '.len')
+        I.st.assume(n >= 0)
+        return V.SList([V.SeqPart(name, n)])
+
+
 class LockT(Spec):
     label = 'lock'
 
@@ -250,6 +275,8 @@ class T:
     one_of = OneOf
     custom = CustomT
     lock = LockT()
+    symcoll = SymCollT
+    symlist = SymListT()
 
 
 class Clause:
